@@ -952,11 +952,66 @@ func runC15(c *Ctx) {
 			scan = append(scan, inner)
 			c.Saw("function " + shortFn(inner))
 		}
-		heldAny := func(i ssa.Instruction) bool {
+		// other function literals of the constructor that the closure calls (`line, ok := next()`):
+		// scanned too; they run under whatever every one of their call sites holds, plus their own locks
+		litSites := map[*ssa.Function][]*ssa.Call{}
+		litLS := map[*ssa.Function]*Lockset{}
+		for _, host := range scan {
+			eachInstr(host, func(i ssa.Instruction) {
+				call, ok := i.(*ssa.Call)
+				if !ok || call.Call.IsInvoke() || call.Call.StaticCallee() != nil {
+					return
+				}
+				g := closureOf(resolveOnceV(call.Call.Value))
+				if g == nil {
+					if ld, isL := isLoad(call.Call.Value); isL {
+						if fv, isFV := ld.X.(*ssa.FreeVar); isFV {
+							if al, isAl := bindingOf(fv).(*ssa.Alloc); isAl {
+								var stored ssa.Value
+								ns := 0
+								for _, r := range refs(al) {
+									if st, isSt := r.(*ssa.Store); isSt && st.Addr == ssa.Value(al) {
+										stored = st.Val
+										ns++
+									}
+								}
+								if ns == 1 {
+									g = closureOf(stored)
+								}
+							}
+						}
+					}
+				}
+				if g == nil || g == inner || g == cl || g.Parent() != cl.Parent() {
+					return
+				}
+				litSites[g] = append(litSites[g], call)
+			})
+		}
+		for g := range litSites {
+			litLS[g] = computeLockset(g)
+			scan = append(scan, g)
+			c.Saw("function " + shortFn(g))
+		}
+		heldAt := func(i ssa.Instruction) bool {
 			if inner != nil && i.Parent() == inner {
 				return outerHeld || len(lsInner.Held(i)) > 0
 			}
 			return len(ls.Held(i)) > 0
+		}
+		heldAny := func(i ssa.Instruction) bool {
+			if g := i.Parent(); litLS[g] != nil {
+				if len(litLS[g].Held(i)) > 0 {
+					return true
+				}
+				for _, site := range litSites[g] {
+					if !heldAt(site) {
+						return false
+					}
+				}
+				return len(litSites[g]) > 0
+			}
+			return heldAt(i)
 		}
 		eachInScan := func(f func(ssa.Instruction)) {
 			for _, g := range scan {
@@ -1084,9 +1139,39 @@ func runC15(c *Ctx) {
 				}
 			}
 		}
+		// one target is read in ONE critical section: a second Lock on the same path means the mutex was
+		// released in between, and another worker can consume part of this target's lines
+		relock := false
+		// critical sections entered by the closure: its own Lock calls and calls of literals that lock
+		sections := append([]ssa.Instruction(nil), ls.Locks...)
+		for g, sites := range litSites {
+			if len(litLS[g].Locks) > 0 {
+				for _, s := range sites {
+					if s.Parent() == cl && !heldAt(s) {
+						sections = append(sections, s)
+					}
+				}
+			}
+		}
+		for _, l := range sections {
+			set := explore(l, false, nil)
+			for _, l2 := range sections {
+				if l2 != l && set[l2] {
+					relock = true
+				}
+			}
+			if loopHeaderOf(l.Block()) != nil {
+				relock = true
+			}
+		}
+		for g := range litSites {
+			nGuarded += len(litLS[g].Locks) // accesses guarded inside the literal count as guarded state
+		}
 		switch {
 		case len(unsafeSites) > 0:
 			c.Fail(key, rLock, "shared reader/scanner/counter state is touched without the lock held (two workers can interleave inside it)", c.ats(unsafeSites)...)
+		case relock && nGuarded > 1:
+			c.Fail(key, rLock, "the lock is taken more than once while one target is read (released and re-acquired, or taken in a loop): between the two critical sections another worker can consume lines that belong to this target", c.ats(sections)...)
 		case !okRelease:
 			c.Fail(key, rLock, whyRel, c.ats(ls.Locks)...)
 		case nGuarded == 0 && len(atomicCells) == 0:
